@@ -376,6 +376,14 @@ impl<'a> Lexer<'a> {
         }
     }
 
+    // a line break inside a char list or byte list literal moves to the next line like any other
+    fn count_line_break_in_literal(&mut self, c: char) {
+        if c == '\n' {
+            self.text_column = 0;
+            self.text_row += 1;
+        }
+    }
+
     fn process_char(&mut self, c: char) -> Option<LexerToken> {
         trace!("Character {:?} at ({:?}, {:?})", c, self.text_column, self.text_row);
         trace!("Current state: {:?}", self.state);
@@ -548,6 +556,7 @@ impl<'a> Lexer<'a> {
                 // because it adds all chars, mostly indiscriminately
                 if !end && c != '\0' {
                     self.current_characters.push(c);
+                    self.count_line_break_in_literal(c);
                 }
 
                 end
@@ -568,6 +577,7 @@ impl<'a> Lexer<'a> {
                     // reset end quote count every non-quote character
                     self.end_quote_count = 0;
                     self.current_characters.push(c);
+                    self.count_line_break_in_literal(c);
                     false
                 }
             }
@@ -593,6 +603,7 @@ impl<'a> Lexer<'a> {
                 // the character after an empty byte list is not part of it
                 if !end && c != '\0' {
                     self.current_characters.push(c);
+                    self.count_line_break_in_literal(c);
                 }
 
                 end
@@ -612,6 +623,7 @@ impl<'a> Lexer<'a> {
                 } else {
                     self.end_quote_count = 0;
                     self.current_characters.push(c);
+                    self.count_line_break_in_literal(c);
                     false
                 }
             }
